@@ -6,6 +6,7 @@ import (
 	"fmt"
 	"os"
 	"path/filepath"
+	"os/exec"
 	"regexp"
 	"sort"
 	"strconv"
@@ -141,6 +142,21 @@ type checkOutcome struct {
 	unclaimed  []*Result
 	vacuous    []*Result
 	frame      []FrameResult
+	standins   []Standin
+}
+
+// Standin is a bounded check of real code that accompanies a property whose
+// deductive fragment cannot reach part of the statement. It is labelled
+// bounded everywhere and never counted among the obligations.
+type Standin struct {
+	Name    string  `json:"name"`
+	Bounded bool    `json:"bounded"`
+	Bound   string  `json:"bound"`
+	OK      bool    `json:"ok"`
+	Secs    float64 `json:"secs"`
+	Summary string  `json:"summary"`
+	Output  string  `json:"-"`
+	Failing string  `json:"failing_input,omitempty"`
 }
 
 func cmdCheck(args []string) int {
@@ -165,7 +181,57 @@ func cmdCheck(args []string) int {
 		fmt.Printf("VIOLATION property=%s replay=%s obligation=load no-failing-input-found\n", o.prop, rp)
 		return 1
 	}
+	if o.prop == "C05" && os.Getenv("GOVC_NO_STANDIN") == "" {
+		out.standins = append(out.standins, runLiteralStandin(o))
+	}
 	return report(o, out)
+}
+
+var rxStandinFail = regexp.MustCompile(`STANDIN-FAIL seed=(\d+)`)
+
+// runLiteralStandin runs the bounded round-trip check of the literal
+// obfuscators (standins/c05_roundtrip_test.go) through go test -overlay.
+func runLiteralStandin(o *checkOpts) Standin {
+	seeds := "2"
+	if o.tier == "thorough" {
+		seeds = "12"
+	}
+	st := Standin{Name: "bounded:literal-round-trip", Bounded: true,
+		Bound: seeds + " seeds x 18 literal lengths (7..2049 bytes) x {string, folded string, []byte, *[]byte, [N]byte, local string}; real literals.Obfuscate, program built and run"}
+	src := filepath.Join(o.verif, "standins", "c05_roundtrip_test.go")
+	if _, err := os.Stat(src); err != nil {
+		st.Summary = "stand-in source missing: " + err.Error()
+		return st
+	}
+	dir, err := os.MkdirTemp("", "govc-standin-")
+	if err != nil {
+		st.Summary = err.Error()
+		return st
+	}
+	defer os.RemoveAll(dir)
+	ov := filepath.Join(dir, "overlay.json")
+	data, _ := json.Marshal(map[string]any{"Replace": map[string]string{filepath.Join(o.repo, "internal", "literals", "zz_verif_standin_test.go"): src}})
+	os.WriteFile(ov, data, 0o644)
+	t0 := time.Now()
+	cmd := exec.Command("go", "test", "-overlay", ov, "-vet=off", "-count=1", "-timeout", "1200s", "-v", "-run", "^TestVerifStandinRoundTrip$", "./internal/literals")
+	cmd.Dir = o.repo
+	cmd.Env = append(os.Environ(), "VERIF_STANDIN_SEEDS="+seeds)
+	outb, _ := cmd.CombinedOutput()
+	st.Secs = round2(time.Since(t0).Seconds())
+	st.Output = string(outb)
+	for _, l := range strings.Split(st.Output, "\n") {
+		if strings.HasPrefix(l, "STANDIN-OK") {
+			st.OK = true
+			st.Summary = l
+		}
+	}
+	if !st.OK {
+		if m := rxStandinFail.FindStringSubmatch(st.Output); m != nil {
+			st.Failing = "seed=" + m[1]
+		}
+		st.Summary = "round trip failed or the harness did not run"
+	}
+	return st
 }
 
 func runCheck(o *checkOpts) (*checkOutcome, error) {
@@ -318,6 +384,15 @@ func report(o *checkOpts, out *checkOutcome) int {
 			emit(f.Name, map[string]any{"kind": "frame", "detail": f.Detail, "backend": "goframe", "witness": f.Witness}, "no-failing-input-found")
 		}
 	}
+	for _, sd := range out.standins {
+		if !sd.OK {
+			tail := "no-failing-input-found"
+			if sd.Failing != "" {
+				tail = "failing-input=" + sd.Failing + " (bounded stand-in run on the real code)"
+			}
+			emit(sd.Name, map[string]any{"kind": "bounded-standin", "bound": sd.Bound, "output": sd.Output, "failing_input": sd.Failing}, tail)
+		}
+	}
 	if !o.noEvidence {
 		writeEvidence(o, out, viol, sortedKeys(seenKnown))
 	}
@@ -441,6 +516,7 @@ func writeEvidence(o *checkOpts, out *checkOutcome, violations int, knownSeen []
 			"vacuous":              len(out.vacuous),
 			"abstracted":           abstracted,
 			"known_findings_seen":  knownSeen,
+			"bounded_standins":     out.standins,
 			"smt_obligations":      n,
 			"frame_obligations":    fn,
 			"load_s":               round2(out.loadSecs),
